@@ -139,6 +139,11 @@ def db_failures(seed, big=False):
     try:
         path = os.path.join(tmp, "cat.db")
         try:
+            if not big and seed % 2:
+                # a database of that name left over from an earlier save, holding every source type
+                catalogs.save_catalog(path, [mk_source(rnd, cls, 90 + k) for k, cls in
+                                             enumerate((ComponentSource, IslandSource, SimpleSource, ComponentSource))], meta={'PROGRAM': 'y'})
+                cat = [s_ for s_ in cat if type(s_) is type(cat[0])]      # the new catalogue holds one source type only
             catalogs.save_catalog(path, cat, meta={'PROGRAM': 'x'})
         except Exception as e:
             return [("save_catalog_completes", "save_catalog(db) raised %r" % (e,))]
